@@ -159,3 +159,15 @@ Qed.
 Definition pos360 (a : R) : R := if Rlt_dec a 0 then 360 + a else a.
 Lemma pos360_range a : -360 < a < 360 -> 0 <= pos360 a < 360.
 Proof. intro H. unfold pos360. destruct (Rlt_dec a 0); lra. Qed.
+
+(* closed integer arithmetic under IZR (e.g. IZR (0 + 1)) *)
+Ltac zsimp :=
+  repeat match goal with
+  | |- context [IZR ?z] =>
+      lazymatch z with
+      | Z0 => fail | Zpos _ => fail | Zneg _ => fail
+      | context [Rfloor _] => fail
+      | _ => let z' := eval vm_compute in z in progress change (IZR z) with (IZR z')
+      end
+  end.
+Ltac zlra := first [ pylra | zsimp; pylra ].
